@@ -116,6 +116,8 @@ fn build_base(sps: &[Spelling], idxs: &[usize]) -> Option<Base> {
 
 #[derive(Clone, Copy, Debug, PartialEq)]
 enum Dev {
+    /// 20 blanks at one gap
+    InsertRun(usize),
     Insert(usize, u8),
     Delete(usize),
     Flip(usize),
@@ -128,6 +130,7 @@ fn deviations(b: &Base) -> Vec<Dev> {
         if !b.prot_gap[g] {
             v.push(Dev::Insert(g, b' '));
             v.push(Dev::Insert(g, b'\t'));
+            v.push(Dev::InsertRun(g));
         }
     }
     for i in 0..bytes.len() {
@@ -146,7 +149,7 @@ fn deviations(b: &Base) -> Vec<Dev> {
 
 fn pos(d: &Dev) -> usize {
     match d {
-        Dev::Insert(g, _) => *g,
+        Dev::Insert(g, _) | Dev::InsertRun(g) => *g,
         Dev::Delete(i) | Dev::Flip(i) => *i,
     }
 }
@@ -160,6 +163,11 @@ fn apply(b: &Base, devs: &[Dev]) -> String {
             if let Dev::Insert(g, c) = d {
                 if *g == i {
                     out.push(*c);
+                }
+            }
+            if let Dev::InsertRun(g) = d {
+                if *g == i {
+                    out.extend(std::iter::repeat(b' ').take(20));
                 }
             }
         }
@@ -213,7 +221,15 @@ fn global_forms(b: &Base) -> Vec<(&'static str, String)> {
             upper.push(bytes[i].to_ascii_uppercase());
         }
     }
+    let mut wide = vec![];
+    for i in 0..bytes.len() {
+        if !b.prot_gap[i] && i > 0 {
+            wide.extend(std::iter::repeat(b' ').take(6));
+        }
+        wide.push(bytes[i]);
+    }
     vec![
+        ("wide", String::from_utf8(wide).unwrap()),
         ("crunched", String::from_utf8(crunched).unwrap()),
         ("spread", String::from_utf8(spread).unwrap()),
         ("lower", String::from_utf8(lower).unwrap()),
@@ -267,14 +283,17 @@ pub fn run(thorough: bool) -> Report {
                 };
                 let devs = deviations(&b);
                 for d in &devs {
-                    let k = match d { Dev::Insert(_, b' ') => 0, Dev::Insert(_, _) => 1, Dev::Delete(_) => 2, Dev::Flip(_) => 3 };
+                    let k = match d { Dev::Insert(_, b' ') | Dev::InsertRun(_) => 0, Dev::Insert(_, _) => 1, Dev::Delete(_) => 2, Dev::Flip(_) => 3 };
                     o.kinds[k] += 1;
-                    test(format!("{:?}", d).replace("Insert", "insert-blank").replace("Delete", "delete-blank").replace("Flip", "case-flip"), apply(&b, &[*d]), &mut o);
+                    test(format!("{:?}", d).replace("InsertRun", "insert-20-blanks").replace("Insert", "insert-blank").replace("Delete", "delete-blank").replace("Flip", "case-flip"), apply(&b, &[*d]), &mut o);
                 }
                 if pairs_everywhere || pairs_window {
                     for (x, d1) in devs.iter().enumerate() {
                         for d2 in devs.iter().skip(x + 1) {
                             if !pairs_everywhere && pos(d2).abs_diff(pos(d1)) > window {
+                                continue;
+                            }
+                            if matches!(d1, Dev::InsertRun(_)) || matches!(d2, Dev::InsertRun(_)) {
                                 continue;
                             }
                             // two edits of the same byte are not a pair of independent deviations
